@@ -72,6 +72,16 @@ def check(ctx):
                         recs[i][4 * field:4 * field + 4] = val
                     buf = [0, 5, 0, cnt] + [rng.randrange(256) for _ in range(20)] + [o for r in recs for o in r]
                     jobs.append({"msgs": [{"exp": exps[0], "buf": buf}], "want_json": True})
+    # whole records of one value (blank records, all-ones records) among ordinary ones and on their own
+    for cnt in (1, 2, 3, 30):
+        for val in (0, 255):
+            for where in ("first", "last", "all", "middle"):
+                recs = [[rng.randrange(1, 255) for _ in range(48)] for _ in range(cnt)]
+                idx = {"first": [0], "last": [cnt - 1], "all": list(range(cnt)), "middle": [cnt // 2]}[where]
+                for i in idx:
+                    recs[i] = [val] * 48
+                buf = [0, 5, 0, cnt] + [rng.randrange(256) for _ in range(20)] + [o for r in recs for o in r]
+                jobs.append({"msgs": [{"exp": exps[0], "buf": buf}], "want_json": True})
     res = flowjobs.run_jobs(ctx, drv, "TestVerifNF5Jobs", jobs, tag="v5")
     rows = []
     for job, x in zip(jobs, res):
@@ -88,6 +98,9 @@ def check(ctx):
             ctx.violation("NetFlow v5 decoder panicked: %s" % y["panic"], {"buf": buf})
             continue
         rows.append({"buf": buf, "res": {"st": y["st"], "hdr": y["hdr"], "flows": y["flows"]}})
+        if y.get("prev_changed"):
+            ctx.violation("NetFlow v5: the message decoded (and encoded) from the previous datagram no longer holds its flows after this "
+                          "datagram was decoded: decoded messages share storage", {"buf": buf}, key="v5:prev-changed")
         if job.get("want_json") and y["st"] == "ok" and y["flows"]:
             # "with addresses rendered in dotted form in the JSON" (the document's other fields are C05's business, checked alike)
             raw = base64.b64decode(y["json"]) if y.get("json") else b""
